@@ -25,6 +25,7 @@ pub proof fn lemma_bvd_spare_zero(v: &Bvd, k: int)
 {
     assert forall|j: u64| j < 64 implies wbit(v.data@[k], j as nat) == wbit(0u64, j as nat) by {
         let b = k * 64 + j;
+        lemma_divmod_at(k, j as int);
         assert(b / 64 == k && b % 64 == j as int);
         assert(!bit_at(v.data@, b));
         lemma_wbit_zero(j);
